@@ -154,7 +154,7 @@ prop(
     assumptions=["hook H5 ends the query right after the duplicate check (a few runs per tier go without it and must give the same verdict)",
                  "all helpers share one HPKE key registry (as in the repository's own tests)"],
     shards={"quick": 16, "thorough": 16},
-    min_evaluations={"quick": 600, "thorough": 8000},
+    min_evaluations={"quick": 600, "thorough": 6000},
     must_see=[("duplicate_rejected_on_expected_shards", 300), ("distinct_input_accepted", 60), ("dup_classes", 10)],
     watchdog_s={"quick": 1200, "thorough": 7200},
 )
